@@ -172,3 +172,62 @@ Example C07_static_nonvacuous :
      ARead 125000; ARead 150000; ATime 24 7]
   = [OVal 10; OVal 10; OVal 10; OVal 20; OVal (-1); ONone; OVal 20; OVal 20; OVal 5; OVal 20; OVal 30; OVal 29167].
 Proof. vm_compute. reflexivity. Qed.
+
+(** * The shared static objects read from SEVERAL timelines (model: Sched/StaticMulti.v, lemmas Sched/StaticMultiProofs.v) *)
+(* The same PStaticPattern / PCurrentTime / PGlobals objects - e.g. event dictionaries built once - used by tracks of
+   several Timeline objects of one process, one after the other (a second performance on a fresh timeline) or alternately.
+   Every read is served with the position of the timeline whose tick makes it. *)
+From Isobar Require Import Sched.StaticMulti Sched.StaticMultiProofs.
+
+(* PCurrentTime reports the position of THE READER's timeline: for every program over any number of timelines, the values
+   shown to the tracks of timeline k are k's own positions (start + its own ticks so far, rounded to 10^-5 beat), whatever the
+   other timelines did meanwhile and whichever timeline read the object before; they are the [time_outs] of the run *)
+Theorem C07_time_of_reader : forall k p tls s g, (k < length tls)%nat ->
+  time_outs k p (run_multi tls s g p) = map OVal (times_of k tls p)
+  /\ times_of k tls p = map (r5 (m_U (nth_tl k tls))) (tick_counts k p (m_pos (nth_tl k tls)))
+  /\ times_of k tls (filter (on_tl k) p) = times_of k tls p.
+Proof.
+  intros k p tls s g L. split; [apply run_multi_times|]. split; [apply times_are_own_positions; exact L|apply times_projection; exact L].
+Qed.
+
+(* a program over several timelines is a program of Sched/Static.v in which every read carries its reader's position:
+   C07_static_hold / _same_time / _kept / _advances / C07_globals_* hold for it as they stand; with one timeline it is the
+   old semantics *)
+Theorem C07_multi_is_static_program : forall p tls s g,
+  drop_ticks p (run_multi tls s g p) = run_prog s g (linearize tls p).
+Proof. exact multi_linear. Qed.
+Theorem C07_multi_single : forall p U t, forallb only_tl0 p = true -> linearize [mkMtl U t] p = single U t p.
+Proof. exact multi_single. Qed.
+
+(* a second performance starts from exactly what the first one left: the state of the pattern, the globals, and each
+   timeline's own position - nothing else is carried over *)
+Theorem C07_second_run : forall p1 p2 tls s g,
+  run_multi tls s g (p1 ++ p2)
+  = run_multi tls s g p1 ++ run_multi (tls_after tls p1) (static_after tls s p1) (globals_after g p1) p2.
+Proof. exact run_multi_app. Qed.
+
+(* the value a static pattern holds - since whenever, set by whichever timeline - is shown unchanged to every reader of every
+   timeline whose OWN position is before the end of the span, however often it is read; and two readers whose timelines are at
+   the same position see the same value *)
+Theorem C07_carried_value_held : forall p tls s g st v, sv_start s = Some st -> sv_value s = Some v ->
+  Forall (fun now => now - st < sv_dur s) (read_positions tls p) ->
+  read_outs p (run_multi tls s g p) = repeat (OVal v) (length (read_positions tls p)) /\ static_after tls s p = s.
+Proof. exact carried_value_held. Qed.
+Theorem C07_same_position_same_value : forall j k tls s g v,
+  Forall (fun d => 0 < d) (sv_durs s) -> pos5 j tls = pos5 k tls ->
+  nth 0 (run_multi tls s g [MRead j; MRead k]) ONone = OVal v -> nth 1 (run_multi tls s g [MRead j; MRead k]) ONone = OVal v.
+Proof. exact same_position_same_value. Qed.
+
+(* non-vacuity: values 10, 20, 30 held for 1/2 beat; timeline 0 (4 ticks per beat) plays three ticks and reads the pattern and the
+   time; then timeline 1 (8 ticks per beat), fresh, is played with the SAME objects: its first time read is 0 (not 0.75), the
+   value 20 (started at 0.5 on timeline 0's clock) is shown until timeline 1 itself reaches 0.5 + 0.5 = 1.0 beat *)
+Example C07_two_timelines_nonvacuous :
+  let p1 := [MRead 0; MTime 0; MTick 0; MTick 0; MRead 0; MTime 0; MTick 0; MTime 0]%nat in
+  let p2 := [MTime 1; MRead 1; MTick 1; MTick 1; MTick 1; MTick 1; MTime 1; MRead 1; MTick 1; MTick 1; MTick 1; MTick 1; MRead 1; MTime 1; MTime 0]%nat in
+  let tls := [mtl0 4; mtl0 8] in
+  run_multi tls (static0 [10; 20; 30] true [50000]) [] (p1 ++ p2)
+  = [OVal 10; OVal 0; ONone; ONone; OVal 20; OVal 50000; ONone; OVal 75000]
+    ++ [OVal 0; OVal 20; ONone; ONone; ONone; ONone; OVal 50000; OVal 20; ONone; ONone; ONone; ONone; OVal 30; OVal 100000; OVal 75000]
+  /\ times_of 1 tls (p1 ++ p2) = [0; 50000; 100000]
+  /\ tick_counts 1 (p1 ++ p2) 0 = [0; 4; 8].
+Proof. vm_compute. repeat split. Qed.
